@@ -403,6 +403,26 @@ theorem header_extra_exact {os ss : List Header} (ex : List Header) (h : HdrInst
   unfold distHeader
   rw [hdrErrors_inst_extra h ex (Classical.not_not.mp hnd) hw hex, Nat.min_eq_left hlen]
 
+/-- The walk is *greedy*: one unknown header in front of the observed list consumes the whole
+signature list — every required header becomes an error and so does every observed header —
+whereas the same header at the end costs one error (`header_extra_exact`). Monotone, but far from
+a fixed penalty; the statement fixes none for header lists, so this is recorded, not a finding. -/
+theorem header_leading_extra (x : Header) (os ss : List Header)
+    (hx : x.name ∉ ss.map (·.name)) :
+    hdrErrors (x :: os) ss = (ss.filter (fun s => !s.optional)).length + (os.length + 1) := by
+  induction ss with
+  | nil => simp [hdrErrors]
+  | cons s ss ih =>
+    have hne : x.name ≠ s.name := fun e => hx (by simp [e])
+    have ih := ih (fun hm => hx (by simp only [List.map_cons, List.mem_cons]; exact .inr hm))
+    by_cases hopt : s.optional = true
+    · simp only [hdrErrors, hne, false_and, if_false, hopt, if_true, ih, List.filter_cons,
+        Bool.not_true, Bool.false_eq_true]
+    · have hopt' : s.optional = false := by simpa using hopt
+      simp only [hdrErrors, hne, false_and, if_false, hopt', Bool.false_eq_true, ih,
+        List.filter_cons, Bool.not_false, if_true, List.length_cons]
+      omega
+
 theorem header_band_monotone {e₁ e₂ d₂ : Nat} (he : e₁ ≤ e₂) (h : errorBand e₂ = some d₂) :
     ∃ d₁, errorBand e₁ = some d₁ ∧ d₁ ≤ d₂ :=
   errorBand_mono he h
